@@ -92,6 +92,22 @@ def _z3_check(rel, neg, rlimit, timeout_ms=None):
 
 
 def check_valid(pc, goal, timeout_ms=None, portfolio=True):
+    """check_valid_raw; a verdict other than `unsat` on a query that uses the abstract string order (strorder.py)
+    is not reported: the query is asked again with the real str.< in its place."""
+    v = check_valid_raw(pc, goal, timeout_ms, portfolio)
+    if v.status == 'unsat' or isinstance(goal, bool) and goal:
+        return v
+    from . import strorder
+    g = z3.BoolVal(goal) if isinstance(goal, bool) else goal
+    if not (strorder.mentions(g) or any(strorder.mentions(c) for c in pc)):
+        return v
+    v2 = check_valid_raw([strorder.concretize(c) for c in pc], strorder.concretize(g), timeout_ms, portfolio)
+    v2.ms += v.ms
+    v2.backend = v2.backend + '(str.< after abstract ' + v.status + ')'
+    return v2
+
+
+def check_valid_raw(pc, goal, timeout_ms=None, portfolio=True):
     """Is (AND pc) => goal valid?  Returns Verdict.
 
     Portfolio (each step only when the previous ones answered unknown):
@@ -354,6 +370,9 @@ def build_value(world, dom, name):
             vals[k] = v
             decs[k] = d
         return vals, Decoder(lambda m: {'$dict': {k: d(m) for k, d in decs.items()}})
+    if isinstance(dom, S.AbstractKey):
+        from .arrays import SAbstractKey
+        return SAbstractKey(name), Decoder(lambda m: {'$abstract_key': name})
     if isinstance(dom, S.AnyObj):
         from . import records as REC
         return REC.SAnyObj(name), Decoder(lambda m: {'$anyobj': name})
@@ -697,6 +716,7 @@ class Verifier:
         sub.first_choice_seed = dict(outer.first_choice)
         sub.modular_memo_seed = dict(outer.modular_memo)
         sub.cell_reads_seed = list(outer.cell_reads)
+        sub.str_cmp_terms_seed = list(outer.str_cmp_terms)
         sub.heap_seed = dict(outer.heap) if outer.heap is not None else None
         sub.fork_site = outer.fork_site
         sub.fork_counts = outer.fork_counts
@@ -728,6 +748,7 @@ class Verifier:
         sub.first_choice_seed = dict(outer.first_choice)
         sub.modular_memo_seed = dict(outer.modular_memo)
         sub.cell_reads_seed = list(outer.cell_reads)
+        sub.str_cmp_terms_seed = list(outer.str_cmp_terms)
         sub.heap_seed = dict(outer.heap) if outer.heap is not None else None
         nbase = len(outer.pc)
         self.world.explorer = sub
@@ -962,6 +983,7 @@ class Verifier:
             closure = self.interp.apply_decorators(closure.node, closure, Env({}, None, closure.module))
         self.active = c
         self.active_node = closure.node
+        Explorer.SKIP_QUANTIFIED = bool(getattr(c, 'fast_branch', False))
         self.modular = {t: self.contracts[t] for t in c.modular if not isinstance(t, S.Contract) and t in self.contracts}
         for t in c.modular:
             if isinstance(t, S.Contract):
@@ -992,6 +1014,7 @@ class Verifier:
                 rep.infeasible_scenarios.append(label)
         rep.ms = (time.time() - t0) * 1000
         self.active = None
+        Explorer.SKIP_QUANTIFIED = False
         return rep
 
     def _run_scenario(self, c, closure, scen, label, rep):
@@ -1291,6 +1314,11 @@ def loop_hook(interp, node, env, it, force=False):
         if isinstance(spec, dict):
             if vr.in_spec or e.func.node is not getattr(vr, 'active_node', None):
                 return False
+            if 'locals' in spec or spec.get('index'):
+                from . import localloops as LL
+                if isinstance(node, ast.For):
+                    return LL.run_local_for(interp, vr, node, env, spec, k, it)
+                return LL.run_local_while(interp, vr, node, env, spec, k)
             from .records import run_scalar_invariant_loop
             return run_scalar_invariant_loop(interp, vr, node, env, spec, k)
     return run_invariant_loop(interp, vr, node, env, it, inv, force)
